@@ -3,7 +3,8 @@ SPEC = dict(
     title="Backups are complete, point-in-time consistent copies",
     pkg="./http", files=["http/c21_verif_test.go"],
     rule="12 format/flag combinations (binary|sql|delete x vacuum x compress) x {leader's API, another node forwarding through the real cluster client/service} x 2 (quick) / 40 (thorough) "
-         "repetitions while a writer commits transactions preserving a cross-table invariant (non-trivial: at least one transaction was in flight during the backup); then the deterministic "
+         "repetitions while a writer commits transactions that each move value between two tables, append to a log AND change the schema (create an index / view / trigger / table+row+index whose name carries the "
+         "transaction number, drop the object created 3 transactions earlier), so the committed version k determines rows and schema exactly (non-trivial: at least one transaction was in flight during the backup); then the deterministic "
          "stalled-consumer family: Store.Backup into a harness writer that stalls after the first chunk (sql: after the first row), for {WAL empty at start, WAL non-empty} x {binary, binary+compress, "
          "vacuum, delete, sql, sql+compress} x 1 (quick) / 10 (thorough): while stalled one transaction commits and Store.Snapshot(0) is called (refused by the gate / succeeded / other error recorded, "
          "together with the owner of snapshotCAS), then the writer is released and the result judged like any backup (non-trivial: the consumer did stall); then the failing-destination family on the "
@@ -25,6 +26,7 @@ SPEC = dict(
                "chunks/tables; C21_gate_held_during_copy (every reachable copying state of the binary backup holds the gate, whatever the WAL held at the start: a checkpoint attempt is refused and changes nothing), "
                "C21_dump_never_holds_gate / C21_online_never_holds_gate; C21_destination_failure_is_error / _never_success (producer side: for every split of the stream into copy-loop writes and "
                "gzip-Close writes and every room, success iff everything fitted); C21_cut_stream_is_error / C21_client_rule for every header, stream and cut position under the gzip hypothesis; C21_cut_is_never_200; "
+               "the dump is a list of queries (table list, rows per table, schema objects) with an explicit transaction bracket; C21_dump_last_query_outside_transaction_refuted is the witness for a bracket closed one query early; "
                "partial = SQLite's isolation rules are the model's hypotheses. The *_refuted theorems document the code before the three fixes.",
     level_note="Model = Store.Backup/db.Dump/db.Backup as phase machines against an adversarial schedule + stream framing + HTTP status rule, for the tree with the fixes "
                ".work/fixes/C21-*.patch applied; tie = real single-node store, cluster service/client, two HTTP services; oracle = scratch SQLite load of every successful backup.",
